@@ -8,7 +8,7 @@ import numpy as np
 from hypothesis import strategies as st
 
 from vf import gens
-from vf.core import Result, lib
+from vf.core import Result, history_independent, lib
 
 ID = "C08"
 TITLE = "All pseudopressure routes agree and are strictly increasing in pressure"
@@ -215,6 +215,14 @@ def check_case(case) -> Result:
             tol = 5.0 * _trap_bound(p, fcol, ia, ib) + 1e-6 * abs(dq)
             res.check("C08/quadrature-vs-table", abs(dq - dt), tol, f"m({p[ib]!r})-m({p[ia]!r}): quadrature {dq!r}, table {dt!r} ({gv} {comp['dryness']});")
             res.check("C08/quadrature-vs-transform", abs(dq - (m3[ib] - m3[ia])), tol, f"m({p[ib]!r})-m({p[ia]!r}): quadrature {dq!r}, stand-alone transform {m3[ib] - m3[ia]!r};")
+    # the quadrature route is a function of its arguments only: other gases (same temperature and pseudocritical point
+    # but another gravity, another temperature, ...) and other pressures evaluated in between must not change it
+    p_top = float(p[idx[-1]])
+    lib("pseudopressure_Hussainy", history_independent, res, "C08/independent-of-call-history", G.pseudopressure_Hussainy, (T, p_top, tpc, ppc, sg),
+        [(T, 0.5 * p_top, tpc, ppc, min(1.5, sg * 1.2)), (T, 0.3 * p_top, tpc, ppc, sg * 0.85), (T + 1.0, 0.5 * p_top, tpc, ppc, sg), (T, 0.7 * p_top, tpc, ppc, sg)], "pseudopressure_Hussainy")
+    h_again = float(lib("pseudopressure_Hussainy", G.pseudopressure_Hussainy, T, p_top, tpc, ppc, sg))
+    if h_again != H[-1]:
+        res.bad("C08/independent-of-call-history", f"pseudopressure_Hussainy({T!r}, {p_top!r}, ..., sg={sg!r}) = {H[-1]!r} when first evaluated, {h_again!r} after other gases / pressures were evaluated")
     # additivity of the quadrature route over adjacent intervals (arbitrary, off-node pressures)
     lo = 14.7 + case["offnode"][0] * (pmax - 14.7) * 0.5
     hi = lo + (0.05 + 0.95 * case["offnode"][1]) * (pmax - lo)
